@@ -4,6 +4,7 @@ identity of within / exists(range), count and delete pairing).  Multiset equival
 over all histories is not decided."""
 import os
 
+import re
 from ast_ import *
 from path import *
 
@@ -34,6 +35,31 @@ def run(ctx):
     for cls, m in sorted(classes.items()):
         lab = cls.replace('phosg::', '').replace('long', 'int64')
         check_tree(ctx, u, lab, m)
+    # the coordinate accessor the tree descends and filters by: at(d) must be the d-th coordinate of
+    # the point type (evaluated for every d; the tree's box tests use nothing else of the point)
+    from peval import PEval, Vec, Ord, Undecided as PUnd, Fault as PFault
+    n_at = 0
+    for f in u.functions:
+        q = u.qualname(f)
+        mt = re.match(r'^phosg::Vector([234])<', q)
+        if not mt or f.get('name') != 'at' or is_dependent_pattern(f, u) or body_of(f) is None:
+            continue
+        n = int(mt.group(1))
+        comps = ['x', 'y', 'z', 'w'][:n]
+        rec_ = u.record_of(f)
+        order_ = [c['name'] for c in sorted([c for c in walk(rec_) if c.get('kind') == 'FieldDecl' and c.get('name') in comps], key=lambda c: c.get('_off', 0))]
+        try:
+            got = []
+            for i_ in range(n):
+                r_ = PEval([u]).call_with(f, [i_], this=Vec('this', list(order_)))
+                got.append(order_[r_.idx] if isinstance(r_, Ord) else repr(r_))
+        except (PUnd, PFault) as e_:
+            ctx.undecided('C13-R1', 'Vector%d::at|coordinate' % n, f, 'the coordinate accessor could not be evaluated (%s)' % e_)
+            continue
+        n_at += 1
+        ctx.check(got == comps, 'C13-R1', 'Vector%d::at|coordinate' % n, f, 'at(d) is coordinate d for d = 0..%d' % (n - 1),
+                  'Vector%d::at(d) yields %s for d = 0..%d: the tree splits and filters dimension d by another coordinate (box queries ignore or double-count an axis)' % (n, got, n - 1))
+    ctx.require(n_at >= 2, 'Vector2/Vector3::at instantiations not found in the witness unit')
 
 
 def one(m, name, nparams=None):
